@@ -14,14 +14,14 @@ LEAN_TARGETS = ["BezierVerif.Props.C19"]
 TV_DEFS = ["bbox_includes", "bbox_overlaps", "bbox_area", "bbox_extend_point", "bbox_extend_first"]
 RULE = ("boxes with integer corners in [-30,30] (many ties, zero width/height), points on/inside/outside; collections of "
         "0..40 shapes per side (lines, single-segment paths) whose x-ranges overlap in positive length or are disjoint "
-        "(ties in x re-drawn, counted); non-trivial = at least one overlapping and one non-overlapping pair; distinct = distinct inputs")
+        "(ties in x kept: boxes touching in x, several zero-width boxes at one x); non-trivial = at least one overlapping and one non-overlapping pair; distinct = distinct inputs")
 UNPROVED = ["'each exactly once' — checked on every generated collection (multiset comparison), not a theorem yet",
             "that Python's sorted() yields a key-sorted permutation of the instruction list (assumed; the completeness theorem holds for every such ordering)"]
 ASSUMPTIONS = ["float comparisons taken as real comparisons", "shapes are distinct objects (`!=` on the active list is identity or value inequality)"]
 LEVEL_TEXT = ("includes_iff / overlaps_iff / overlaps_symm are theorems about definitions regenerated from boundingbox.py (all boxes, degenerate "
               "ones included). Sweep: hand model of the event loop with the generated overlap test plugged in; sweep_sound (every emitted pair is "
               "an A x B pair whose closed ranges intersect) for every event order; sweep_complete for every key-sorted ordering of the instructions "
-              "under the quantifier's positive-x-overlap hypothesis; model tied to linesweep.py by output-for-output correspondence")
+              "for closed overlap, ties in x included (sweep_complete_closed: instructions ordered by x and, at equal x, additions before removals; pinned_tie_counterexample: F27; sweep_once / sweep_once_sorted: no pair is reported twice, for every order of the code's instruction list); model tied to linesweep.py by output-for-output correspondence")
 LEVEL_NOTE = ("trusted: Lean kernel, axioms {propext, Classical.choice, Quot.sound}, translator, hand model Model/Sweep.lean (+ List.mergeSort as "
               "the model of sorted(), compared output-for-output per run)")
 TECHNIQUE = "symbolic tracing to Lean + split_ifs/linarith; list induction over the event sequence"
@@ -99,12 +99,7 @@ def draw_collections(rng):
             C.append((l, b, l + w, b + h))
             ctrl = [(l, b), (l + w, b + h), (l + w + ext, b + h), (l + w + 2 * ext, b)]
             C.insert(rng.randrange(len(C) + 1), (l, b, l + w + 2 * ext, b + 0.75 * h, ctrl))
-        if x_generic(A, B):
-            return A, B
-        # repair ties by shifting B by 1/2 in x
-        B = [(b[0] + 0.5, b[1], b[2] + 0.5, b[3]) + ((tuple((x + 0.5, y) for x, y in b[4]),) if len(b) == 5 else ()) for b in B]
-        if x_generic(A, B):
-            return A, B
+        return A, B          # x ties (boxes touching in x, zero-width boxes at one x) are part of the quantifier since F27
     return [], []
 
 
